@@ -151,30 +151,30 @@ structure Loop where
   result : Dict := []
   stop : Bool := false
 
-/-- one iteration of `result[m] = read_<m>()` under `insideRW > 0` -/
-def readIter (cfg : Cfg) (l : Loop) (mr : String × Option Val) : Loop :=
+/-- one iteration of `result[m] = read_<m>()` under `insideRW > 0`; `r m` is what the body of `read_<m>` does -/
+def readIter (cfg : Cfg) (r : String → Option Val) (l : Loop) (m : String) : Loop :=
   if l.stop then l else
-  if cfg.hasR mr.1 then
-    match mr.2 with
+  if cfg.hasR m then
+    match r m with
     | none => { l with stop := true }
-    | some x => { l with st := announceMemberIn mr.1 x l.st, result := l.result ++ [(mr.1, x)] }
+    | some x => { l with st := announceMemberIn m x l.st, result := l.result ++ [(m, x)] }
   else
-    match l.st.mem.lookup mr.1 with
+    match l.st.mem.lookup m with
     | none => { l with stop := true }
-    | some x => { l with result := l.result ++ [(mr.1, x)] }
+    | some x => { l with result := l.result ++ [(m, x)] }
 
 /-- one iteration of `result[m] = write_<m>(value[m])` under `insideRW > 0` -/
-def writeIter (cfg : Cfg) (v : Dict) (l : Loop) (mw : String × WRes Val) : Loop :=
+def writeIter (cfg : Cfg) (v : Dict) (w : String → WRes Val) (l : Loop) (m : String) : Loop :=
   if l.stop then l else
-  match v.lookup mw.1 with
+  match v.lookup m with
   | none => { l with stop := true }
   | some req =>
-    if cfg.hasW mw.1 then
-      match mw.2 with
+    if cfg.hasW m then
+      match w m with
       | .fail => { l with stop := true }
-      | .retNone => { l with st := announceMemberIn mw.1 req l.st, result := l.result ++ [(mw.1, req)] }
-      | .ret x => { l with st := announceMemberIn mw.1 x l.st, result := l.result ++ [(mw.1, x)] }
-    else { l with st := announceMemberIn mw.1 req l.st, result := l.result ++ [(mw.1, req)] }
+      | .retNone => { l with st := announceMemberIn m req l.st, result := l.result ++ [(m, req)] }
+      | .ret x => { l with st := announceMemberIn m x l.st, result := l.result ++ [(m, x)] }
+    else { l with st := announceMemberIn m req l.st, result := l.result ++ [(m, req)] }
 
 /-- what follows the loop: `finally` (re-synchronise after a failure), then the wrapper -/
 def finishLoop (cfg : Cfg) (l : Loop) : St :=
@@ -183,23 +183,22 @@ def finishLoop (cfg : Cfg) (l : Loop) : St :=
   else if wf cfg l.result then fine (announceStruct cfg l.result l.st)
   else failed l.st
 
-def readStructB (cfg : Cfg) (rs : List (Option Val)) (s : St) : St :=
-  finishLoop cfg ((cfg.members.zip rs).foldl (readIter cfg) { st := s })
+def readStructB (cfg : Cfg) (r : String → Option Val) (s : St) : St :=
+  finishLoop cfg (cfg.members.foldl (readIter cfg r) { st := s })
 
-def writeStructB (cfg : Cfg) (v : Dict) (ws : List (WRes Val)) (s : St) : St :=
+def writeStructB (cfg : Cfg) (v : Dict) (w : String → WRes Val) (s : St) : St :=
   if !wf cfg v then failed s else
-  finishLoop cfg ((cfg.members.zip ws).foldl (writeIter cfg v) { st := s })
+  finishLoop cfg (cfg.members.foldl (writeIter cfg v w) { st := s })
 
 /-! ### operations -/
 
 inductive Op
-  | readStruct (rA : Option Dict) (rB : List (Option Val))
-  | writeStruct (v : Dict) (wA : WRes Dict) (wB : List (WRes Val))
+  | readStruct (rA : Option Dict) (rB : String → Option Val)           -- oracle of read_<m>, by member
+  | writeStruct (v : Dict) (wA : WRes Dict) (wB : String → WRes Val)   -- oracle of write_<m>, by member
   | readMember (m : String) (rA : Option Dict) (rB : Option Val)
   | writeMember (m : String) (v : Val) (wA : WRes Dict) (rA : Option Dict) (wB : WRes Val)
   | driverAssignStruct (v : Dict)
   | driverAssignMember (m : String) (v : Val)
-  deriving Repr, Inhabited
 
 def step (cfg : Cfg) (s : St) : Op → St
   | .readStruct rA rB => if cfg.combined then readStructA cfg rA s else readStructB cfg rB s
